@@ -18,6 +18,7 @@ import subprocess
 
 import common as C
 import c12
+import conc
 
 LEVEL = "proof"
 SYSCALLS = "openat,write,fsync,renameat,close"
@@ -155,7 +156,7 @@ def judge(sc, res):
 
 
 def check(ctx):
-    build = C.ensure_built("C13", ["fs"])
+    build = C.ensure_built("C13", ["fs"], extra_go=conc.EXTRA_GO)
     scs = scenarios(ctx.seed, ctx.tier)
     scratch = C.scratch()
     found = False
@@ -201,6 +202,38 @@ def check(ctx):
                                          "detail": "scenario %s %s: code %s, model %s" % (sc["dist"][:40], res["inject"], res["got2"], det["model"])})
     finally:
         shutil.rmtree(scratch, ignore_errors=True)
+    # interference: concurrent creators of different names / in different directories / of one name,
+    # with concurrent readers
+    scratch2 = C.scratch()
+    inter = {}
+    try:
+        for impl in ("dir", "mem"):
+            for mode in ("names", "dirs", "same"):
+                rounds, report = conc.run_hconc("atomic", ["-impl", impl, "-mode", mode, "-seed", str(ctx.seed), "-scratch", scratch2,
+                                                            "-rounds", "6" if ctx.tier == "quick" else "60", "-threads", "4",
+                                                            "-ops", "60" if ctx.tier == "quick" else "200"])
+                inter["%s/%s" % (impl, mode)] = {"rounds": len(rounds), "calls": sum(r["ops"] for r in rounds),
+                                                  "problems": sum(1 for r in rounds if r.get("problem"))}
+                bad = [r for r in rounds if r.get("problem")]
+                if not bad:
+                    continue
+                e = None
+                for kf in C.load_known("C13"):
+                    m = kf.get("match", {})
+                    if kf.get("status") == "known" and m.get("proto") == "hconc-atomic" and m.get("impl") == impl and m.get("mode") == mode:
+                        e = kf
+                if e is not None:
+                    known_hits[e["key"]] = e
+                    continue
+                if not found:
+                    found = True
+                    ctx.violation("counterexample", "AtomicCreate (%s): concurrent creators (%s) disturb each other" % (impl, mode),
+                                  {"proto": "hconc-atomic", "impl": impl, "mode": mode, "seed": ctx.seed},
+                                  expected="every observed content is the complete data of one AtomicCreate for that name, and no call fails",
+                                  observed=bad[0]["problem"])
+    finally:
+        shutil.rmtree(scratch2, ignore_errors=True)
+    stats["interference"] = inter
     for k, e in known_hits.items():
         ctx.known("%s — %s" % (k, e["what"]))
     C.report_broken_obligations(ctx, build, found)
@@ -221,7 +254,7 @@ def check(ctx):
     ctx.assumptions += [
         "OS model: a killed process keeps what it wrote (page cache); rename is atomic; directory-entry durability and real power loss are not modelled",
         "strace delivers the kill on entry to the chosen system call (the model is tried with the call executed and not executed)",
-        "concurrent creators (interference-freedom) are exercised by the C14 machinery, not here",
+        "interference-freedom is exercised by stress runs (4 creators + 4 readers), not by a theorem over interleavings",
     ]
     return ctx.finish(build)
 
